@@ -96,9 +96,33 @@ m = {
  ],
  "checks": [],
  "not_applicable": [{"property_id": p, "reason": "check not built yet (work in progress; model checking is applicable)"} for p in sorted(not_built)],
- "notes": "All checks: cwd=/verif, ./run.sh <id> <tier> rebuilds the harness against /repo's working tree with -tags verif and runs it. Known findings: /verif/known_findings.txt.",
+ "notes": "All checks: cwd=/verif, ./run.sh <id> <tier> rebuilds the harness against /repo's working tree with -tags verif and runs it in a worker under a supervising process (a worker that dies after journalling a violation is reported as exit 1, otherwise exit 2). Known findings: /verif/known_findings.txt. 200 seeded changes with results: /verif/seeded/.",
+}
+# what the five seeding rounds added on top of the original bounded families (DESIGN.md section 7)
+later = {
+ "C01": " Later additions: push-policy / mutex / decorated variants, capacities at the edge of int, observed histories (every query issued between the steps), and a long regime (machines that start from 9..130 prefilled elements, drains as single operations).",
+ "C02": " Later additions: more symbols / delimiters / leaf kinds, Conditions built through seven histories, and a second rendering of every tree after each presentation flag of the root and of the first nested stack was flipped with the toggle form (and flipped back).",
+ "C03": " Later additions: push-policy, mutex, no-nesting and decorated variants, stacks made by Marshal on a zero value, observed histories, and a long regime (capacities 9..2000 almost full at the start).",
+ "C04": " Later additions: decorated stacks, invalid Conditions, and a long regime of wide stacks (8..130 elements) at the top, nested and as Condition expressions.",
+ "C05": " Later additions: many more leaf kinds (append-grown slices, []any, byte arrays, deep pointers, hollow handles, Stacks / Conditions inside typed slices), user operators, symbols and case folding shared by both sides, eight construction histories.",
+ "C06": " Later additions: typed-nil and uncomparable operators, alias expressions, observed histories, an earlier copy of the handle across Init, and a small sequential machine with six encapsulation schemes in every order next to a bystander Condition.",
+ "C07": " Later additions: seven option placements, reference descent by the harness's own type switches (not the library's converters), hollow siblings, Conditions completed after construction, depth-2 shapes in the quick tier, and chains of depth 6..33 with every prefix and one-index deviation.",
+ "C08": " Later additions: ~80 awkward values, an independently built twin for every call, cross-comparison of all value pairs, self references for Transfer / IsEqual, Less over every pair and sorting, lock-leak tests, and a long regime (lengths 9..62).",
+ "C09": " Later additions: rejecting closures on receivers, label-led Marshal tuples, fluent results must be the receiver, read-only instances nested at every position of small parents and at depth 1..12 below writable ancestors, and standing beside every package-level function call.",
+ "C10": " Later additions: push-policy path (accepting and rejecting), SetMutex issued again, kinds rotated, index options with removals addressed from the end, twelve-value pushes, 2x3 programs with preemption bound 2 in the thorough tier.",
+ "C11": " Later additions: spy leaves that record the structure while it is being rendered, closures as scheduling points, a repetition pass (6000 calls in a row), a pass with the package default loggers replaced after construction, exactly-full receivers, half-built / failing-policy Conditions.",
+ "C12": " Later additions: aliases whose own String differs from the native text, a prelude of hollow alias values, Conditions built through histories, nested stacks with closures of their own, wide parents (8..20).",
+ "C13": " Later additions: nil pointers and three-level pointers to aliases, decorated / capacity variants, the deprecated alias with explicit argument, a piecemeal Condition machine, observed histories.",
+ "C14": " Later additions: mutex variants under the lock model, decorated kinds, four kinds of built-in-invalid Conditions, closures that answer as a function of their arguments, self comparands, batches of 8..70 with the first rejection at every critical position.",
+ "C15": " Later additions: 21 destination forms (pointers to pointers), destinations that refuse elements themselves, mixed sources, mutex variants with lock-leak tests, the source as its own destination, and a long regime (sources 31..1100).",
+ "C16": " Later additions: typed nils of depth 1..3 in every position, a typed-nil operator, mutex and mutex+policy receivers under the lock model, neighbours with swapped operators, undecoded-envelope test, wide inputs (14..70 entries).",
+ "C17": " Later additions: package-level function table with inert-argument oracle, Reset on stacks that held 1023..2500 elements, bystander instances for every non-query call, copies of a handle across Free.",
+ "C18": " Later additions: validity-rejecting and mutex variants, letter symbols / encapsulations, non-ASCII runes, Condition settings machine, SetLogger among the log-level operations, empty auxiliary map, observed histories.",
+ "C19": " Later additions: eleven placements incl. parent options, pre-existing errors, index options / read-only flag on the nested stack, the receiver's own Err, run-length patterns with limits 60 / 100 and stacks of 65..135 slices.",
+ "C20": " Later additions: typed nil pointers as leaves, decorated stacks, Conditions built through histories, behaviour modes (index options, capacity reached with one refused call made beforehand, read-only receiver), the fluent result must be the receiver, envelope runs above multi-child stacks, Conditions holding two-level stacks next to removable envelopes.",
 }
 for pid,(eng,tech,text,note,ref) in sorted(checks.items()):
+    text += later.get(pid, "")
     m["checks"].append({
      "property_id": pid,
      "quick_cmd": f"./run.sh {pid} quick",
